@@ -223,6 +223,7 @@ func (re *RuntimeEnvironment) CreateFreshChannel(ident string) Name {
 		// Not needed in the case of NORMAL_ASYNC or NORMAL_SYNC
 	}
 
+	verifChan(ident, mChan, cmChan)
 	return Name{
 		Ident:          ident,
 		Channel:        mChan,
@@ -299,6 +300,7 @@ func (re *RuntimeEnvironment) HeartbeatReceiver(timeout time.Duration, cancel co
 			// require the deduction of the last fullTimeout -- involving the time.NewTimer in the
 			// computation is not a good idea since it is inherently inaccurate (https://go-review.googlesource.com/c/go/+/514275)
 			re.timeTaken = lastUpdate.Sub(start)
+			verifQuiesce(re)
 			// re.timeTaken = time.Since(start) - fullTimeout
 
 			// Timeout reached (call cancel and terminate)
